@@ -305,9 +305,23 @@ def run_history(ctx, scratch, kind):
     path = os.path.join(scratch, f'{kind}_{ctx.evaluations}_{int(rng.integers(1e9))}{ext}')
     model_of_file = None     # (object, theta) the file must contain
     n_steps = int(rng.integers(1, 4))
+    prev = None
     for step in range(n_steps):
         try:
-            obj, theta = mk()
+            if prev is not None and kind in ('RDMs', 'Dataset', 'TemporalDataset') and rng.integers(2):
+                # the object saved a moment ago is relabelled in place (string labels held in numpy arrays are rotated)
+                # and saved again: the file must hold the labels the object has NOW
+                obj, theta = prev
+                n_edit = 0
+                for dname in ('rdm_descriptors', 'pattern_descriptors', 'obs_descriptors', 'channel_descriptors'):
+                    for key, val in (getattr(obj, dname, None) or {}).items():
+                        if isinstance(val, np.ndarray) and val.dtype.kind == 'U' and len(set(val.tolist())) > 1:
+                            val[:] = np.roll(val, 1)
+                            n_edit += 1
+                ctx.count('objects_relabelled_in_place_between_saves', 1 if n_edit else 0)
+            else:
+                obj, theta = mk()
+            prev = (obj, theta)
         except Exception as exc:
             ctx.notes.append(f'generator problem for {kind}: {exc!r}')
             return
